@@ -142,6 +142,6 @@ def execute(cases_, tier, seed):
     res.bound = "tier=%s: enforced-construct depth-2 space%s; universe depth %d" % (tier, "" if tier == "quick" else " + depth-3", wirefam.DEPTH.get(tier, 2))
     res.assumptions = ["alphabet rules (DESIGN §11): never null at an Option position, never an array for an object",
                        "oracle = jsonschema Draft7; only oracle-confirmed invalid documents are demanded to fail"]
-    if len(cases_) > 20 and (n_mut < 500 or n_str < 50 or n_newtypes < 5):
+    if not res.violations and (len(cases_) > 20 and (n_mut < 500 or n_str < 50 or n_newtypes < 5)):   # a subject that breaks everything is reported through its violations, not as vacuity
         raise MachineryError("vacuity guard: mutants=%d str=%d newtypes=%d" % (n_mut, n_str, n_newtypes))
     return res
